@@ -72,6 +72,10 @@ CHECKS = {
             'argument compared with the model',
             'Held on the executions produced, with one open known finding (alias-of-nullable field reorders '
             'the positional construction).', '4 C14'),
+    'C15': ('runtime monitoring: python_type_stubs output parsed with ast and compared with the introspected runtime '
+            'modules of the same spec and with an independent Stone->PEP 484 mapping',
+            'Held on the executions produced, with one open known finding (type behind a foreign alias named '
+            'without import).', '4 C15'),
 }
 
 PENDING = {}
